@@ -237,6 +237,8 @@ type taskStats struct {
 	checkedExtents, sweeps               int
 	decOK, decErr, encOK, encErr, sizeOK int
 	sizePanic, legacy, notes             int
+	samples                              []reflect.Value // objects handed to Pretouch as samples
+	sampleSnaps                          []string
 }
 
 func newTaskStats() *taskStats {
@@ -405,8 +407,16 @@ func (r *Runner) Run() {
 	}
 	total.Deadlock, total.NoProgress = res.Deadlock, res.NoProgress
 	res = total
-	for _, t := range r.ts {
+	for ti, t := range r.ts {
 		r.stats.merge(t)
+		// an object that was merely shown to Pretouch must still be what it was
+		for i, s := range t.samples {
+			if model.Digest(model.CanonValue(s.Elem())) != t.sampleSnaps[i] {
+				r.J.put(&Rec{K: "V", Prop: "C17", Sig: "C17/legacy/pretouch-sample-modified", Task: ti,
+					Msg: "an object passed to Pretouch as a sample was modified by the time the run ended (" + s.Type().String() + ")"})
+				r.stats.viol++
+			}
+		}
 	}
 	if len(r.stats.firstUse) > 64 {
 		r.stats.firstUse = r.stats.firstUse[:64]
@@ -989,16 +999,29 @@ func (r *Runner) execLegacy(op *OpSpec, st *Step) *Rec {
 		}
 		switch op.Legacy {
 		case "pretouch":
-			if err := frugal.Pretouch(rt); err != nil {
-				fail("Pretouch returned " + err.Error())
+			// the old signature (a reflect.Type, of the struct or of the pointer) and the new one (any value): a live
+			// sample object, a typed nil pointer, a struct value
+			sample := reflect.New(rt)
+			if sd := r.C.Get(op.Type); st.Arg > 0 {
+				sd = r.C.Get(r.op(uint64(st.Arg - 1)).Type)
+				if sd != nil && !sd.Rejected() {
+					model.Realise(r.C, sd, model.GenValue(r.C, sd, op.VSeed, model.VOpt{Budget: 200}), sample.Elem())
+				}
 			}
-			if err := frugal.Pretouch(reflect.PtrTo(rt)); err != nil {
-				fail("Pretouch returned " + err.Error())
+			ts := r.st(st)
+			ts.samples = append(ts.samples, sample)
+			ts.sampleSnaps = append(ts.sampleSnaps, model.Digest(model.CanonValue(sample.Elem())))
+			for _, x := range []interface{}{rt, reflect.PtrTo(rt), sample.Interface(), reflect.Zero(reflect.PtrTo(rt)).Interface(), sample.Elem().Interface()} {
+				if err := frugal.Pretouch(x); err != nil {
+					fail("Pretouch returned " + err.Error())
+				}
 			}
 		case "pretouch-opts":
-			if err := frugal.Pretouch(rt, frugal.WithMaxInlineDepth(int(op.VSeed%7)), frugal.WithMaxInlineILSize(int(op.VSeed%100000)),
-				frugal.WithMaxPretouchDepth(int(op.VSeed%5))); err != nil {
-				fail("Pretouch returned " + err.Error())
+			for k, x := range []interface{}{rt, reflect.PtrTo(rt), reflect.New(rt).Interface()} {
+				if err := frugal.Pretouch(x, frugal.WithMaxInlineDepth(int(op.VSeed%7)), frugal.WithMaxInlineILSize(int(op.VSeed%100000)),
+					frugal.WithMaxPretouchDepth(int(op.VSeed>>3)%5-1+k%2)); err != nil {
+					fail("Pretouch returned " + err.Error())
+				}
 			}
 		case "pretouch-ptrptr":
 			pp := reflect.PtrTo(reflect.PtrTo(rt))
